@@ -88,9 +88,7 @@ Example F8b_witness :
     = FAtomic (ACmp (GSym (SSym "hpA")) [mkguard RLt (GSym (SSym "hp__s"))]) /\
   rel_sat RLt (VSym "hpA") (VSym "hp") = false /\ rel_sat RLt (VSym "hpA") (VSym "hp__s") = true.
 Proof.
-  split; [|split; reflexivity]. cbn.
-  destruct (memb_spec pred_dec (mkpred "hp" 0) [mkpred "hp" 0]) as [_|Hn]; [|exfalso; apply Hn; left; reflexivity].
-  destruct (memb_spec pred_dec (mkpred "hpA" 0) [mkpred "hp" 0]) as [[E|[]]|_]; [discriminate|reflexivity].
+  split; [|split; reflexivity]. vm_compute. reflexivity.
 Qed.
 
 (* non-vacuity: an interpretation with hp not included in tp falsifies the transition axiom of p/0 *)
